@@ -787,7 +787,7 @@ def find_slot_paths(facts, adt, type_rx, depth=0):
     if a is None or a["kind"] != "Struct" or depth > 3:
         return out
     for x in a["variants"][0]["fields"]:
-        if re.search(type_rx, x["ty"]):
+        if (type_rx(x["ty"]) if callable(type_rx) else re.search(type_rx, x["ty"])):
             out.append((x["name"],))
         elif x["ty"] in facts.adts:
             for sub in find_slot_paths(facts, x["ty"], type_rx, depth + 1):
@@ -796,13 +796,22 @@ def find_slot_paths(facts, adt, type_rx, depth=0):
 
 
 def lift_site(facts, g, bb):
-    """A read inside a private helper is judged in the function the helper serves: while the function holding the site is a private,
-    non-trait function whose callers all sit in one other function, move up; then find the site in that function's body with the helpers of
-    its file spliced in.  -> (function to analyse, block)"""
+    """A read inside a private helper or a closure is judged in the function it serves: a closure belongs to the function it is written in;
+    while the function holding the site is a private, non-trait function whose callers all sit in one other function of the same file, move
+    up; then find the site in that function's body with the helpers and closures of its file spliced in.  -> (function to analyse, block)"""
     import inline
     top = g
     seen = {g.id}
-    while top.rec.get("impl_trait") is None and not top.rec.get("vis_pub") and "{closure" not in top.id:
+    while True:
+        if "{closure" in top.id:
+            parent = facts.fns.get(re.sub(r"::\{closure#\d+\}$", "", top.id))
+            if parent is None or parent.id in seen:
+                break
+            seen.add(parent.id)
+            top = parent
+            continue
+        if top.rec.get("impl_trait") is not None or top.rec.get("vis_pub"):
+            break
         callers = {h.id for h, b2, t2 in facts.callers_of(top.id)}
         if len(callers) != 1:
             break
@@ -811,16 +820,20 @@ def lift_site(facts, g, bb):
             break
         seen.add(nxt.id)
         top = nxt
+    cache = facts.__dict__.setdefault("_lift_cache", {})
     if top.id == g.id:
-        return g, bb
-    R = inline.inlined(facts, top.id, stop=lambda d: facts.fns[d].rec.get("local") and (facts.fns[d].file != top.file or d not in seen))
+        if g.rec.get("impl_trait") != T_DROP:
+            return g, bb
+        # a destructor is judged with the private helpers of its file spliced in (`while !self.is_finished()`), but not the Read impls
+        # it drains through: those are sites of their own
+    if top.id not in cache:
+        cache[top.id] = inline.inlined(facts, top.id, stop=lambda d: facts.fns[d].rec.get("local") and (facts.fns[d].file != top.file or (facts.fns[d].rec.get("impl_trait") == T_READ and d != g.id)))
+    R = cache[top.id]
     for b in range(R.n):
         blk = R.blocks[b]
         if blk.get("src") == g.id and blk.get("obb") == bb and not blk.get("synthetic"):
             return R, b
     return g, bb
-
-
 
 
 def abstractly_visited(facts):
@@ -851,7 +864,7 @@ def abstractly_visited(facts):
     nd_ok, nd_path = notify_slot_dead(engine.Ctx("x", "quick", facts, 0))
     def pre(st, base):
         if nd_ok and nd_path:
-            st.write_key(RM.key(base, nd_path), ("none",))
+            st.write_key(RM.key(base, nd_path), notify_slot(facts)["dead"])
     entry = [m for m in RM.methods.values() if m.rec.get("vis_pub")]
     for g in entry:
         base = RM.self_base(g)
@@ -908,28 +921,81 @@ def owner_of_path(facts, adt, path):
     return owner, path[-1]
 
 
+SENDER_UNIT = "std::sync::mpsc::Sender<()>"
+
+
+def notify_kind(facts, ty):
+    """how a type can hold the completion-notice sender: ('option',) for Option<Sender<()>>, ('enum', adt, armed variant, empty variant) for an
+    enum of the crate with one variant carrying exactly a Sender<()> and one field-less variant; None otherwise"""
+    if ty == "std::option::Option<%s>" % SENDER_UNIT:
+        return ("option",)
+    a = facts.adts.get(ty)
+    if a is not None and a["kind"] == "Enum" and len(a["variants"]) == 2:
+        armed = [v for v in a["variants"] if len(v["fields"]) == 1 and v["fields"][0]["ty"] == SENDER_UNIT]
+        empty = [v for v in a["variants"] if not v["fields"]]
+        if len(armed) == 1 and len(empty) == 1:
+            return ("enum", ty, armed[0]["name"], empty[0]["name"])
+    return None
+
+
+def notify_slot(facts):
+    """the Request's completion-notice slot, bound by what it can hold.  -> None or dict(path, owner, field, kind, dead (the term of its
+    empty value), armed (variant name))"""
+    if hasattr(facts, "_notify_slot"):
+        return facts._notify_slot
+    paths = find_slot_paths(facts, REQ, lambda ty: notify_kind(facts, ty) is not None)
+    res = None
+    if len(paths) == 1:
+        owner, fld = owner_of_path(facts, REQ, paths[0])
+        ty = [x["ty"] for x in facts.adt(owner)["variants"][0]["fields"] if x["name"] == fld][0]
+        k = notify_kind(facts, ty)
+        if k[0] == "option":
+            res = {"path": paths[0], "owner": owner, "field": fld, "kind": k, "dead": ("none",), "empty": "None", "armed": "Some", "ty": ty}
+        else:
+            res = {"path": paths[0], "owner": owner, "field": fld, "kind": k, "dead": ("agg", k[1], k[3], {}), "empty": k[3], "armed": k[2], "ty": ty}
+    elif len(paths) > 1:
+        res = {"ambiguous": paths}
+    facts._notify_slot = res
+    return res
+
+
 def notify_slot_dead(ctx):
-    """The Request's `Option<Sender<()>>` (HTTPS-only completion notice) is never Some in this configuration: it is None at construction and
-    set only by functions whose every call sits on the HTTPS-only branch (dead: Stream::secure() is constantly false).  -> (ok, slot path or None)"""
+    """The Request's completion-notice slot (HTTPS only) is never armed in this configuration: it is empty at construction and armed only by
+    functions whose every call sits on the HTTPS-only branch (dead: Stream::secure() is constantly false).  -> (ok, slot path or None)"""
     facts = ctx.facts
     if hasattr(facts, "_notify_dead"):
         return facts._notify_dead
-    paths = find_slot_paths(facts, REQ, r"^std::option::Option<std::sync::mpsc::Sender<\(\)>>$")
-    if len(paths) != 1:
-        facts._notify_dead = (len(paths) == 0, None)
+    ns = notify_slot(facts)
+    if ns is None:
+        facts._notify_dead = (True, None)
         return facts._notify_dead
-    owner, fld = owner_of_path(facts, REQ, paths[0])
+    if "ambiguous" in ns:
+        facts._notify_dead = (False, None)
+        return facts._notify_dead
+    owner, fld = ns["owner"], ns["field"]
     ok = tls_const_false(ctx)
     setters = set()
     for f, bb, kind, x in facts.field_writes(owner, fld):
         if kind == "construct":
             r = x["rhs"]
             o = f.origin(r["ops"][r["fields"].index(fld)])
-            if not (o[0] == "agg" and o[4] == "None"):
-                # a constructor that takes the value as a parameter: then its callers must pass None
+            if not (o[0] == "agg" and o[4] == ns["empty"] and not o[2]):
+                # a constructor that takes the value as a parameter: then its callers must pass the empty value
                 ok = ok and False
         elif kind in ("assign", "calldest"):
             setters.add(f.id)
+        elif kind == "mutref":
+            # &mut slot handed to a function of the slot's own type (`self.slot.disarm()`): fine when that function only ever stores the
+            # empty value; handed to anything else than take / replace-with-empty: treated as a setter
+            pass
+    # functions of the slot's own type that store into *self
+    if ns["kind"][0] == "enum":
+        for k2, g in sorted(facts.local_fns.items()):
+            if g.rec.get("impl_self_adt") == ns["ty"]:
+                for b2, i2, s2 in g.assigns():
+                    r = s2["rhs"]
+                    if s2["lhs"]["p"] == ["*"] and r["rv"] == "agg" and r.get("adt") == ns["ty"] and r.get("variant") == ns["armed"]:
+                        setters.add(g.id)
     work = list(setters)
     seen = set()
     while work:
@@ -950,5 +1016,39 @@ def notify_slot_dead(ctx):
             bs = [b2 for b2 in range(tk.n) if tk.src_of(b2) == g.id and tk.blocks[b2].get("obb") == bb and not tk.blocks[b2].get("synthetic")]
             if not bs or not all(tls_branch_dead(ctx, tk, b2) for b2 in bs):
                 ok = False
-    facts._notify_dead = (ok, paths[0])
+    facts._notify_dead = (ok, ns["path"])
     return facts._notify_dead
+
+
+def server_drop_own_sites(facts):
+    """(function, block) pairs of call sites that belong to Server::drop: sites in its own body, its closures, and private helpers that are
+    called from nowhere else; for each, the site's block inside drop's body with everything spliced in.  -> {(fn id, bb): (inlined Fn, block)}"""
+    if hasattr(facts, "_server_drop_sites"):
+        return facts._server_drop_sites
+    import inline
+    import queue_rules as Q
+    d0 = method(facts, T_DROP, SERVER, "drop")
+    f = inline.inlined(facts, d0.id, extern_ok=Q.std_small)
+    members = {d for dep, d in f.inlined} | {d0.id}
+    def private_to_drop(fid, seen=()):
+        if fid == d0.id or fid.startswith(d0.id + "::{closure"):
+            return True
+        if fid in seen:
+            return False
+        g = facts.fns.get(fid)
+        if g is None or g.rec.get("vis_pub") and g.rec.get("impl_trait") is None and False:
+            return False
+        if "{closure" in fid:
+            return private_to_drop(re.sub(r"::\{closure#\d+\}$", "", fid), seen + (fid,))
+        callers = facts.callers_of(fid)
+        return bool(callers) and all(private_to_drop(h.id, seen + (fid,)) for h, b2, t2 in callers)
+    out = {}
+    for b in range(f.n):
+        blk = f.blocks[b]
+        if blk.get("synthetic") or not (blk["term"]["t"] == "call" or blk.get("inl_call")):
+            continue
+        src = f.src_of(b)
+        if src in members and private_to_drop(src):
+            out[(src, blk.get("obb", b))] = (f, b)
+    facts._server_drop_sites = out
+    return out
